@@ -54,6 +54,12 @@ func check(ctx *pbt.Ctx, c Case) error {
 		return nil
 	}
 	// caller-owned objects
+	if c.Invoke == 2 {
+		// the transaction's checked input carries no unlocking script of its own; the script is
+		// supplied through WithScripts next to WithTx
+		model.In = append([]ref.In{}, model.In...)
+		model.In[0].Unlock, model.In[0].UnlockNil = nil, true
+	}
 	tx := ref.ToLib(model)
 	// two extra inputs whose recorded previous output must not be touched
 	other := &bt.Input{PreviousTxOutIndex: 7, SequenceNumber: 9, PreviousTxSatoshis: 1234,
@@ -78,6 +84,9 @@ func check(ctx *pbt.Ctx, c Case) error {
 	if c.Invoke == 1 {
 		unlockObj = bscript.NewFromBytes(append([]byte{}, c.Unlock...))
 		opts = append(opts, interpreter.WithScripts(lockObj, unlockObj))
+	} else if c.Invoke == 2 {
+		unlockObj = bscript.NewFromBytes(append([]byte{}, c.Unlock...))
+		opts = append(opts, interpreter.WithTx(tx, 0, prev), interpreter.WithScripts(lockObj, unlockObj))
 	} else {
 		opts = append(opts, interpreter.WithTx(tx, 0, prev))
 	}
@@ -112,7 +121,10 @@ func check(ctx *pbt.Ctx, c Case) error {
 			return fmt.Errorf("checked input does not carry the spent output's script/value after execution")
 		}
 	}
-	if c.Invoke == 1 {
+	if c.Invoke == 2 && tx.Inputs[0].UnlockingScript != nil {
+		return fmt.Errorf("the checked input had no unlocking script before execution and carries %x afterwards", []byte(*tx.Inputs[0].UnlockingScript))
+	}
+	if c.Invoke != 0 {
 		// no transaction context: signature / locktime opcodes are rejected up front by the
 		// library's documented precondition, the reference has no such notion
 		return nil
@@ -328,10 +340,7 @@ func TestPrograms(t *testing.T) {
 			default:
 				p = sgen.StackAware(t, flags, 14)
 			}
-			inv := 0
-			if rapid.IntRange(0, 4).Draw(t, "invoke") == 0 {
-				inv = 1
-			}
+			inv := rapid.SampledFrom([]int{0, 0, 0, 1, 2}).Draw(t, "invoke")
 			return Case{Prog: libexec.Prog{Unlock: p.Unlock, Lock: p.Lock, Flags: uint32(p.Flags), Ctx: libexec.TxCtx{Version: 2, LockTime: 100, Seq: 50, Amount: 1}, Level: p.Level}, Invoke: inv}
 		},
 		Check: check,
